@@ -349,6 +349,30 @@ theorem compose_nodes_mem {g h : DiGraph} (hg : WF g) (hh : WF h) {x : Nat} :
     · exact Or.inl (Or.inl (Or.inl h1))
     · exact Or.inl (Or.inr h1)
 
+/-- Composition never merges tasks: with disjoint task sets the node list of
+    `nx.compose(G, H)` is G's nodes followed by H's nodes. -/
+theorem compose_nodes_disjoint {g h : DiGraph} (hg : WF g) (hh : WF h)
+    (hdis : ∀ x ∈ g.nodes, x ∉ h.nodes) : (g.compose h).nodes = g.nodes ++ h.nodes := by
+  unfold compose
+  have h1 : (empty.addNodesFrom g.nodes).nodes = g.nodes := by
+    have := addNodesFrom_fresh g.nodes empty (by simpa [empty] using hg.nodupNodes)
+    simpa [empty] using this
+  have h2 : ((empty.addNodesFrom g.nodes).addEdgesFrom g.edgeList).nodes = g.nodes := by
+    rw [addEdgesFrom_nodes_of_closed, h1]
+    intro e he
+    rw [h1]
+    exact hg.closed e ((mem_edgeList_of_wf hg).mp he)
+  have hnd : (g.nodes ++ h.nodes).Nodup :=
+    List.nodup_append.mpr ⟨hg.nodupNodes, hh.nodupNodes, fun a ha b hb hab => hdis a ha (hab ▸ hb)⟩
+  have h3 : (((empty.addNodesFrom g.nodes).addEdgesFrom g.edgeList).addNodesFrom h.nodes).nodes = g.nodes ++ h.nodes := by
+    have := addNodesFrom_fresh h.nodes ((empty.addNodesFrom g.nodes).addEdgesFrom g.edgeList) (by rw [h2]; exact hnd)
+    rw [this, h2]
+  rw [addEdgesFrom_nodes_of_closed, h3]
+  intro e he
+  rw [h3]
+  have := hh.closed e ((mem_edgeList_of_wf hh).mp he)
+  exact ⟨List.mem_append_right _ this.1, List.mem_append_right _ this.2⟩
+
 /-! ### relabel1 (`relabel_nodes(G, {old: new}, copy=False)`) -/
 
 /-- The renaming a one-entry mapping performs. -/
